@@ -28,7 +28,7 @@ add("C06", "metamorphic runtime monitor (identity / concatenation relations) ove
     "Trusts the Go runtime and the harness' fragment generator (seams never create an opening delimiter). Whitespace control is excluded (C15).")
 
 add("C07", "reference-model runtime monitor: independent evaluator of generated expression trees vs the engine's output for the minimally parenthesised text; call counters observe short-circuiting",
-    "Runtime exploration: all expression trees of depth <= 2 over 27 leaves (exhaustive for that sub-space), the depth-3 trees over 5 leaves (all in thorough, every 16th in quick) and random deep trees are printed with minimal parentheses in several layouts and executed in {{ }} and {% if %}; an independent tree evaluator supplies the expected value/error/branch and the expected number of calls of counting functions. Held = no deviation on the executions observed.",
+    "Runtime exploration: all expression trees of depth <= 2 over 29 leaves (exhaustive for that sub-space), the depth-3 trees over 5 leaves (all in thorough, every 8th in quick) and random deep trees are printed with minimal parentheses in several layouts and executed in {{ }} and {% if %}; an independent tree evaluator supplies the expected value/error/branch and the expected number of calls of counting functions. Held = no deviation on the executions observed.",
     "Trusts the harness' evaluator and printer (precedence table of the property). Fragment restrictions of the property are applied; out-of-fragment trees are counted as unjudged, int^int and not-on-int accept both documented spellings.")
 add("C17", "runtime monitor with independent decoders (HTML unescape, \\uXXXX/surrogate decoding, url.QueryUnescape, reference functions) over exhaustive BMP runes, exhaustive short special-character strings and random strings; two routes (ApplyFilter, template) compared",
     "Runtime exploration: each escaping filter is applied to every BMP code point, to all strings of up to 3 blocks over 17 special blocks (exhaustive sub-spaces) and to random hostile strings; the oracle checks the promised output alphabet and that decoding gives the input back. Held = no deviation on the applications observed.",
